@@ -116,7 +116,8 @@ func c17Gen(r *core.Rand) (*gtfsrt.FeedMessage, []c17Alert) {
 					so = fmt.Sprintf("MTASBWY:C:%d", pr)
 				default:
 					pr = 1 + r.Intn(40)
-					so = fmt.Sprintf("MTASBWY:%s:%d", *sel.RouteId, pr)
+					// the priority is a decimal number; zero padding does not change its value
+					so = fmt.Sprintf(core.Pick(r, []string{"MTASBWY:%s:%d", "MTASBWY:%s:%d", "MTASBWY:%s:%02d", "MTASBWY:%s:%03d"}), *sel.RouteId, pr)
 				}
 				proto.SetExtension(sel, gtfsrt.E_MercuryEntitySelector, &gtfsrt.MercuryEntitySelector{SortOrder: rgen.S(so)})
 				ci.priorities = append(ci.priorities, pr)
@@ -155,9 +156,9 @@ func init() {
 			"distinct_nontrivial counts distinct (stations, elevator alerts, groups per policy, other alerts, configuration) signatures of feeds with at least one group of two or more members or one Mercury selector",
 		Cases: func(tier string) int {
 			if tier == "thorough" {
-				return 12000
+				return 40000
 			}
-			return 1000
+			return 5000
 		},
 		Run: runC17,
 		Assumptions: []string{
